@@ -2,7 +2,7 @@
 """Entry point of every check:  check.py Cxx [--tier quick|thorough] [--replay file]
 
 Decision protocol (DESIGN.md §5):
-  1. translate /repo tables -> lean/SshAudit/Gen            (translator tie)
+  1. translate /repo tables -> lean/SshAudit/Gen            (translator tie; plugins with GEN_LOGIC: also the listed functions, step 3)
   2. lake build the property's Props module and the driver   (kernel re-checks every theorem)
   3. audit: every listed theorem compiled, axioms ⊆ {propext, Classical.choice, Quot.sound}
   4. translation validation of the translator (dump-tables round trip)
@@ -122,6 +122,13 @@ def run(plugin, prop, tier, seed, t0):
         for t, r_ in common.audit_theorems(ext.MODULE, ext.NAMESPACE, ext.THEOREMS, be).items():
             audit[tag + '.' + t] = r_
         all_theorems += [tag + '.' + t for t in ext.THEOREMS]
+    # regenerated logic (plugin.GEN_LOGIC = [function names of harness/translate_logic.py]): the Lean definitions of these functions are
+    # rewritten from the source and `GenLogic.<name>_eq_model` (definition = hand-written model) is one more obligation of the property
+    gen_logic = None
+    if getattr(plugin, 'GEN_LOGIC', None):
+        gl, gen_logic = common.gen_logic_audit(plugin.GEN_LOGIC)
+        audit.update(gl)
+        all_theorems += list(gl)
     forbidden = common.grep_forbidden(common.lean_sources())
     undischarged = {t: r['why'] for t, r in audit.items() if not r['ok']}
     if forbidden:
@@ -258,7 +265,7 @@ def run(plugin, prop, tier, seed, t0):
         'theorems': {t: {'status': r['why'], 'axioms': r['axioms']} for t, r in audit.items()},
         'traces_validated_against_impl': res.get('corr_cases', 0),
         'correspondence_mismatches': len(mismatches),
-        'translator': {'changed_files': tr.get('changed'), 'round_trip': tables},
+        'translator': {'changed_files': tr.get('changed'), 'round_trip': tables, **({'logic': gen_logic} if gen_logic is not None else {})},
         'known_findings_reproduced': sorted(reproduced),
         'known_findings_not_reproduced': sorted(e['id'] for e in known if e['id'] not in reproduced),
         'observations': res.get('observations', []),
